@@ -29,7 +29,9 @@ type htmlGen struct {
 	wide     bool // allow runs of several blanks between the parts of a tag
 }
 
-var gTagNames = []string{"p", "div", "span", "a", "ul", "li", "b", "h1", "x-y", "tr", "P", "Div", "é", "br", "img", "input", "meta"}
+// ("block" without the tag prefix is an ordinary element; so are names that merely start or end like a directive tag)
+var gTagNames = []string{"p", "div", "span", "a", "ul", "li", "b", "h1", "x-y", "tr", "P", "Div", "é", "br", "img", "input", "meta",
+	"block", "Block", "BLOCK", "blockquote", "tblock", "t", "template"}
 // (the directive keywords WITHOUT the directive prefix are ordinary attributes: a tag carrying them is still directive-free)
 var gAttrNames = []string{"id", "class", "href", "title", "data-x", "hidden", "a", "b", "x:y", "A", "é", "on_click", "v-if", "@x",
 	"if", "with", "else", "range", "remove", "text", "raw", "elif", "else-if", "define", "insert", "replace", "is"}
